@@ -58,7 +58,7 @@ var goSrcFuncs = []string{
 	"Array.AsFloat", "Array.AsInteger", "Array.AsUint64",
 	"ParsedJson.get_current_loc", "ParsedJson.write_tape", "ParsedJson.writeTapeTagVal", "ParsedJson.writeTapeTagValFlags",
 	"ParsedJson.write_tape_s64", "ParsedJson.write_tape_double", "ParsedJson.annotate_previousloc", "parseString", "addNumber",
-	"min", "max", "fmtF", "appendFloatF", "appendFloat", "Serializer.indexString", "Object.FindKey", "Object.FindPath", "Iter.Object", "Iter.Array", "Iter.Root", "Iter.Root#self", "Iter.FindElement", "ParsedJson.stringAt", "Iter.String", "floatToString", "Iter.StringCvt", "Object.NextElement",
+	"min", "max", "fmtF", "appendFloatF", "appendFloat", "Serializer.indexString", "Object.FindKey", "Object.FindPath", "Iter.Object", "Iter.Array", "Iter.Root", "Iter.Root#self", "Iter.FindElement", "Array.AsString", "Array.AsStringCvt", "ParsedJson.stringAt", "Iter.String", "floatToString", "Iter.StringCvt", "Object.NextElement",
 }
 
 // functions in which constant expressions are folded (as the compiler does) before printing; the functions translated
@@ -216,6 +216,8 @@ func tyOfTypeExpr(e ast.Expr) gty {
 					return tyU64s
 				case "float64":
 					return tyF64s
+				case "string":
+					return tyStrs
 				}
 			}
 		}
@@ -430,6 +432,9 @@ func (t *gsTr) expr(e ast.Expr, want gty) (string, gty) {
 			}
 			if want == tyU64s || want == tyF64s {
 				return ".nilU", want
+			}
+			if want == tyStrs {
+				return ".nilK", tyStrs
 			}
 			return "(.bool false /- nil -/)", tyErr
 		}
@@ -698,9 +703,18 @@ func (t *gsTr) expr(e ast.Expr, want gty) (string, gty) {
 				return ".nilU", tyU64s
 			case tyF64s:
 				return ".nilU", tyF64s
+			case tyStrs:
+				return ".nilK", tyStrs
 			}
 		}
 		if id, ok := x.Fun.(*ast.Ident); ok && id.Name == "append" && len(x.Args) == 2 && !x.Ellipsis.IsValid() {
+			if a, aty := t.exprTry(x.Args[0]); aty == tyStrs {
+				b, bty := t.expr(x.Args[1], tyBytes)
+				if bty != tyBytes {
+					gsDie(e, "appended element type")
+				}
+				return fmt.Sprintf("(.pushK %s %s)", a, b), tyStrs
+			}
 			if a, aty := t.exprTry(x.Args[0]); aty == tyI64s || aty == tyU64s || aty == tyF64s {
 				elTy := map[gty]gty{tyI64s: tyInt, tyU64s: tyU64, tyF64s: tyF64}[aty]
 				b, bty := t.expr(x.Args[1], elTy)
@@ -2059,7 +2073,7 @@ func (t *gsTr) stmt0(s ast.Stmt, ind string) string {
 				dw = tyInt // the default type of an untyped integer constant
 			}
 			r, ty := t.expr(x.Rhs[0], dw)
-			if ty != tyInt && ty != tyU64 && ty != tyU8 && ty != tyBool && ty != tyBytes && ty != tyF64 && ty != tyU32 && ty != tyI64s && ty != tyU64s && ty != tyF64s {
+			if ty != tyInt && ty != tyU64 && ty != tyU8 && ty != tyBool && ty != tyBytes && ty != tyF64 && ty != tyU32 && ty != tyI64s && ty != tyU64s && ty != tyF64s && ty != tyStrs {
 				gsDie(s, "type of defined variable")
 			}
 			if _, shadow := t.outer[id.Name]; shadow {
